@@ -347,6 +347,13 @@ class Interp:
         fields = set()
 
         def root_cell(e):
+            # a view returned by a method call (d.get(k, ...), d.setdefault(k, ...)): the container
+            # itself is what may be written through; never re-evaluate a call for its side effects
+            while isinstance(e, ast.Call):
+                if isinstance(e.func, ast.Attribute):
+                    e = e.func.value
+                else:
+                    return
             cells.append(e)
 
         for node in body_nodes:
@@ -954,6 +961,11 @@ class Interp:
 
     def binop(self, op, a, b, node):
         ctx = self.ctx
+        hook = getattr(self.c, "binop_hook", None)
+        if hook is not None:
+            r = hook(ctx, self, op, a, b)
+            if r is not None:
+                return r
         if isinstance(a, VInt) and isinstance(b, VInt):
             if op is ast.Add:
                 return VInt(a.t + b.t)
